@@ -25,6 +25,7 @@ Val(n) == CASE n = "i1" -> Sc("int", 10000) [] n = "i2" -> Sc("int", 20000) [] n
             [] n = "abc" -> St("abc", "plain") [] n = "ABC" -> St("abc", "upper") [] n = "abc!" -> St("abc", "punct")
             [] n = "abd" -> St("abd", "plain") [] n = "empty" -> St("", "plain")
             [] n = "none" -> Sc("none", 0) [] n = "err" -> Sc("err", 0)
+            [] n = "errx" -> Sc("err", 0)          \* a call that failed by exiting the interpreter (SystemExit) is a failed call too
             [] n = "L12" -> V("list", 0, "-", "-", <<Sc("int", 10000), Sc("int", 20000)>>)
             [] n = "L12c" -> V("list", 0, "-", "-", <<Sc("int", 10000), Sc("float", 20005)>>)
             [] n = "L1f2" -> V("list", 0, "-", "-", <<Sc("float", 10000), Sc("int", 20000)>>)
@@ -183,14 +184,14 @@ TypeMatch(v, t) ==
       [] OTHER -> "U"
 Patterns == {"re:ab.", "re:^b", "re:z", "re:[0-9]"}
 \* output assertions: the left operand is an execution that printed, the right one the expected text
-Outputs == {"o:abc", "o:ABC!", "o:abd", "o:none", "o:two", "err"}
+Outputs == {"o:abc", "o:ABC!", "o:abd", "o:none", "o:two", "err", "errx"}
 OutTexts == {"abc", "ABC", "abc!", "abd", "empty", "two"}
 OutFam(a) == a \in {"output", "not_output", "output_contains", "not_output_contains"}
 \* documented normal form: lower-case, punctuation removed, split into lines, empty lines dropped, lines sorted
 NF(x) == CASE x \in {"o:abc", "o:ABC!", "abc", "ABC", "abc!"} -> {"abc"} [] x \in {"o:abd", "abd"} -> {"abd"}
            [] x \in {"o:two", "two"} -> {"abc", "abd"} [] OTHER -> {}
 \* lower-cased text IN lower-cased output (run of characters anywhere); o:two prints "abd" then "abc"
-ContainsPairs == {<<o, "empty">> : o \in Outputs \ {"err"}}
+ContainsPairs == {<<o, "empty">> : o \in Outputs \ {"err", "errx"}}
     \cup {<<"o:abc", "abc">>, <<"o:abc", "ABC">>, <<"o:ABC!", "abc">>, <<"o:ABC!", "ABC">>, <<"o:ABC!", "abc!">>,
           <<"o:two", "abc">>, <<"o:two", "ABC">>, <<"o:abd", "abd">>, <<"o:two", "abd">>}
 LazyNames == {"R12", "M12"}
@@ -217,7 +218,7 @@ Matches(p, t) == CASE p = "re:ab." -> t \in {"abc", "abc!", "abd"}      \* 'ab' 
                    [] OTHER -> FALSE
 HoldsN(a, ln, rn) ==
     \* families whose relation is about object identity, types or patterns: defined on operand NAMES
-    IF ln = "err" \/ rn = "err" THEN "U" ELSE
+    IF Val(ln).k = "err" \/ Val(rn).k = "err" THEN "U" ELSE
     CASE a = "is" -> B(ln = rn /\ Val(ln).k \in {"none", "bool", "int"})
       [] a = "is_not" -> B(~(ln = rn /\ Val(ln).k \in {"none", "bool", "int"}))
       [] a = "is_instance" -> B(InstanceOf(Val(ln), rn))
@@ -271,7 +272,7 @@ Unordered(aa, x, y) == \/ aa \in {"less", "less_equal", "greater", "greater_equa
                        \/ aa \in {"length_less", "length_greater_equal"} /\ Val(y).k = "nan"
 Complement == TheoremState => \A aa \in Asserts : Negation(aa) \in Asserts =>
     \A x \in LDom(aa), y \in RDom(aa) :
-        (x # "err" /\ y # "err" /\ ~Unordered(aa, x, y) /\ HoldsAny(aa, x, y) \in {"T", "F"} /\ HoldsAny(Negation(aa), x, y) \in {"T", "F"}) =>
+        (Val(x).k # "err" /\ Val(y).k # "err" /\ ~Unordered(aa, x, y) /\ HoldsAny(aa, x, y) \in {"T", "F"} /\ HoldsAny(Negation(aa), x, y) \in {"T", "F"}) =>
             (HoldsAny(aa, x, y) = "T" <=> HoldsAny(Negation(aa), x, y) = "F")
 EqSymmetric == TheoremState => \A x \in ValNames, y \in ValNames : Holds("equal", Val(x), Val(y)) = Holds("equal", Val(y), Val(x))
 NeverBothPass == TheoremState => \A aa \in Asserts : Negation(aa) \in Asserts =>
